@@ -14,7 +14,7 @@ BUDGET = {"quick": 40000, "thorough": 600000}
 CLEAR_CACHES_EVERY = 2000
 RULE = (
     "Constructor arguments come from a typed pool: python ints (incl. bool, 0, negatives, up to 2**53, a few beyond "
-    "2**63), python floats (ordinary, tiny, huge up to 1e300, +-0.0, subnormal, nan, +-inf), NumPy and JAX scalars, "
+    "2**63), python floats (ordinary, tiny, huge up to 1e300, +-0.0, subnormal, nan, +-inf), NumPy scalars (float64/float32/float16, int64/int32) and JAX scalars, "
     "strings, None, complex; n_points from -2..300 plus bool/float/None/str; both continuous grid classes. Oracle: "
     "construction raises GridInitializationError, or to_jax() is a 1-D array of exactly n_points finite, strictly "
     "increasing values, first = start (1e-12 rel), last = stop for n>=2, constant first differences (linear) / "
@@ -47,6 +47,9 @@ def num():
         st.sampled_from(FLOATS[:17]).map(lambda x: ["np.float64", repr(x)]),
         st.sampled_from([0, 1, 7]).map(lambda x: ["np.int64", repr(x)]),
         st.sampled_from([0.5, 2.0]).map(lambda x: ["jax", repr(x)]),
+        st.sampled_from([0.1, 1.0, 0.3, 2.5, 100.0, 16777216.0]).map(lambda x: ["np.float32", repr(x)]),
+        st.sampled_from([0.1, 1.0, 3.0]).map(lambda x: ["np.float16", repr(x)]),
+        st.sampled_from([0, 1, 7, 16777216, 16777226]).map(lambda x: ["np.int32", repr(x)]),
     )
 
 
@@ -113,6 +116,12 @@ def mk(v):
         return np.float64(float(r))
     if t == "np.int64":
         return np.int64(int(r))
+    if t == "np.float32":
+        return np.float32(float(r))
+    if t == "np.float16":
+        return np.float16(float(r))
+    if t == "np.int32":
+        return np.int32(int(r))
     if t == "jax":
         return jnp.asarray(float(r))
     raise ValueError(t)
